@@ -142,9 +142,12 @@ func (s step) String() string {
 		}
 	}
 	for _, o := range s.ops {
-		if o.kind == 'C' {
+		switch o.kind {
+		case 'C':
 			b = append(b, fmt.Sprintf("C%s:%s:%d", hx([]byte(o.name)), hx([]byte(o.value)), o.attr))
-		} else {
+		case 'E':
+			b = append(b, "E")
+		default:
 			b = append(b, "A"+hx([]byte(o.value)))
 		}
 	}
@@ -323,6 +326,13 @@ func parseSteps(s string) ([]step, bool) {
 						return nil, false
 					}
 					cur.ops = append(cur.ops, op{kind: 'A', value: string(v)})
+				case 'E':
+					// the handler returns an error after its other operations: the response then goes
+					// through the error handler, and its cookies must be encrypted all the same
+					if x != "E" {
+						return nil, false
+					}
+					cur.ops = append(cur.ops, op{kind: 'E'})
 				default:
 					return nil, false
 				}
@@ -620,10 +630,14 @@ func runCase(id string, c cfgIn, steps []step) (aux, obs string, err error) {
 			}
 		}
 		st.hdr = strings.Clone(ctx.Get("Cookie"))
+		fail := false
 		for _, o := range curOps {
-			if o.kind == 'C' {
+			switch o.kind {
+			case 'C':
 				ctx.Cookie(mkCookie(o))
-			} else {
+			case 'E':
+				fail = true
+			default:
 				ctx.Response().Header.Add("Set-Cookie", o.value)
 			}
 		}
@@ -631,6 +645,9 @@ func runCase(id string, c cfgIn, steps []step) (aux, obs string, err error) {
 			pk, pv, tl := parseSetCookie(string(v))
 			st.pre = append(st.pre, rcookie{string(k), string(v), pk, pv, tl})
 		})
+		if fail {
+			return fiber.NewError(fiber.StatusTeapot, "handler failed")
+		}
 		return nil
 	})
 	handler := app.Handler()
